@@ -413,9 +413,24 @@ func c05LoadRaises(p *Prog, r *Report) {
 	}
 	good := true
 	detail := ""
+	// (the record may be the first of its key, or replace an older one that was kept so far: in both cases it stays)
+	type world struct {
+		cs     [3]int64
+		keptAt int64 // 0: the key has no kept version yet
+	}
+	var worlds []world
 	for _, cs := range [][3]int64{{3, 5, 5}, {5, 3, 5}, {1, 7, 7}} {
+		worlds = append(worlds, world{cs, 0}, world{cs, 1})
+	}
+	for _, w := range worlds {
+		cs, keptAt := w.cs, w.keptAt
 		env := &Env{P: p, Pkg: fi.Pkg, Vars: map[types.Object]*Val{arg: intVal(cs[0])}}
-		env.MapOk = func(_ *Env, _ *ast.IndexExpr) (*Val, bool, bool) { return nil, false, true }
+		env.MapOk = func(_ *Env, _ *ast.IndexExpr) (*Val, bool, bool) {
+			if keptAt > 0 {
+				return &Val{Fields: map[string]*Val{"Seq": intVal(keptAt), "Key": strVal("k"), "TxId": strVal(mainId)}}, true, true
+			}
+			return nil, false, true
+		}
 		env.Hook = func(env *Env, e ast.Expr) (*Val, bool) {
 			// the record of the iteration: the loop value, or records[i] when the loop goes over kept positions
 			if ix, ok := e.(*ast.IndexExpr); ok && env.Pkg == fi.Pkg && fileObj != nil && objOf(info, ix.Index) == fileObj {
@@ -440,7 +455,7 @@ func c05LoadRaises(p *Prog, r *Report) {
 		got := env.Vars[arg]
 		if got == nil || got.C == nil || got.C.ExactString() != fmt.Sprint(cs[2]) {
 			good = false
-			detail = fmt.Sprintf("accumulator %d, record sequence %d: accumulator becomes %v, expected %d", cs[0], cs[1], got, cs[2])
+			detail = fmt.Sprintf("accumulator %d, record sequence %d (an older version of the key kept so far: %v): accumulator becomes %v, expected %d", cs[0], cs[1], keptAt > 0, got, cs[2])
 		}
 	}
 	r.Check(good, "C05.b", kCoreLoad+"#max-accumulator", p.pos(pubLoop), "the value given to sequence.Set is the maximum over the published records", "the value given to sequence.Set is not the maximum sequence number of the published records: "+detail)
